@@ -19,7 +19,7 @@ m = {
               "kind_free_text": "bounded symbolic execution of the go/ssa form of /repo's working tree (fork of x/tools go/ssa/interp: symbolic bit-vector/Bool/String scalars, byte-vector strings, choice-prefix DFS over branches / map orders / schedules, one z3 -in per worker, delay-bounded baton scheduler with virtual time); counterexamples replayed natively with go test -tags verif -overlay"}],
  "checks": [],
  "not_applicable": NOT_APPLICABLE,
- "notes": "All checks: ./check <id> <tier>. Exit 0 = held on everything explored (KNOWN-FINDING lines for listed findings), 1 = VIOLATION (natively replayed), 3 = inconclusive (solver unknown / unwinding / unsupported construct / counterexample not reproduced natively). known_findings.json is never written at run time.",
+ "notes": "All checks: ./check <id> <tier>. Exit 0 = held on everything explored (KNOWN-FINDING lines for listed findings), 1 = VIOLATION (natively replayed), 3 = inconclusive (solver unknown / unwinding / unsupported construct / counterexample not reproduced natively). known_findings.json is never written at run time. A harness file that does not compile against the tree (a private identifier it enters through was renamed) is left out and reported as 'REDUCED property=<id>: ...' (evidence: harnesses_left_out); the exit code then refers to the harnesses that ran, and is 3 if none did.",
 }
 for n in range(1, 21):
     pid = "C%02d" % n
